@@ -375,7 +375,30 @@ func (w *world) othersSilent(actor *sessModel, when string) bool {
 			continue
 		}
 		if len(r) > 0 {
-			w.fail("message-on-other-stream", "%s: session %d, which sent nothing, received %v", when, j, r)
+			// The only message a session may receive without having sent anything is the
+			// failure of operations of its own that the server gave up (a previous primary's
+			// held operations at a hand-over): every result must be FAILED, for an id that was
+			// sent on that very stream and has no verdict yet. It enters the accounting like
+			// any other result.
+			own := true
+			for _, m := range r {
+				if m.GetElectionId() != nil || m.GetSessionParamsResult() != nil || len(m.GetResult()) == 0 {
+					own = false
+				}
+				for _, x := range m.GetResult() {
+					if _, sent := o.sent[x.GetId()]; !sent || x.GetStatus() != spb.AFTResult_FAILED || len(o.results[x.GetId()]) > 0 {
+						own = false
+					}
+				}
+			}
+			if !own {
+				w.fail("message-on-other-stream", "%s: session %d, which sent nothing, received %v", when, j, r)
+				continue
+			}
+			for _, m := range r {
+				w.account(o, j, m, when)
+			}
+			w.v.Class("unsolicited-failure-of-own-unanswered-operations")
 		}
 	}
 	return true
